@@ -226,6 +226,27 @@ fn c09_slide_masks_contract() {
     kani::cover!(ROOK_SLIDE_MASKS[sq(27)].test(t), "reachable");
 }
 
+/// the two mask BUILDERS called directly (the lazily built statics only cache their result): symbolic square and target
+#[kani::proof]
+#[kani::unwind(66)]
+fn c09_rook_slide_masks_builder_contract() {
+    let s = any_square();
+    let t = any_square();
+    let masks = compute_rook_slide_masks();
+    assert!(masks[s].test(t) == spec_in_mask(sq_u8(s), sq_u8(t), true));
+    kani::cover!(masks[s].test(t), "reachable");
+}
+
+#[kani::proof]
+#[kani::unwind(66)]
+fn c09_bishop_slide_masks_builder_contract() {
+    let s = any_square();
+    let t = any_square();
+    let masks = compute_bishop_slide_masks();
+    assert!(masks[s].test(t) == spec_in_mask(sq_u8(s), sq_u8(t), false));
+    kani::cover!(masks[s].test(t), "reachable");
+}
+
 /// spec-level lemma (no repository code): blockers outside the slide mask never change the attack set, so looking up
 /// by `occupancy & mask` loses nothing.  With the two contracts above this gives
 /// unopt(s, occ) == unopt(s, occ & mask(s)) for the real functions.
